@@ -601,6 +601,11 @@ class Selection:
         ctx.assume(z3.Implies(ctx.forall_range(0, n, lambda t: keep(t)), z3.And(M == n, ctx.forall_range(0, n, lambda j: sel(j) == j))))
         ctx.assume(z3.Implies(ctx.forall_range(0, n, lambda t: z3.Not(keep(t))), M == 0))
         ctx.assume(z3.Implies(M == 0, ctx.forall_range(0, n, lambda t: z3.Not(keep(t)))))
+        # exactly one position kept: a consequence of the definition (two selected positions would both be that one, but sel is
+        # strictly increasing) which the solver does not find by itself, since no term sel(1) occurs to instantiate with
+        u = z3.Int(ctx.fresh("u"))
+        ctx.assume(z3.ForAll([u], z3.Implies(z3.And(0 <= u, u < n, keep(u), ctx.forall_range(0, n, lambda t: z3.Implies(keep(t), t == u))),
+                                             z3.And(M == 1, sel(0) == u)), patterns=[cnt(u)]))
 
 
 def selection_for(ex, n, keep):
